@@ -400,7 +400,8 @@ Theorem C16_pool_in_domain : forall dom k fs,
 Proof. exact pool_in_domain. Qed.
 
 (* the wide comparison (Model/IriEqU.v): same statements for the flatteners run with iri_equ . . false on
-   iri_dom_u = valid UTF-8, url.Parse gives scheme and host, literal part of the query in one letter case *)
+   iri_dom_u = ANY byte string url.Parse gives a scheme and a host (valid UTF-8 or not, userinfo and IP literals
+   included: builder b44), literal part of the query in one letter case *)
 Theorem C16_value_domain_u : forall k fs, fields_dom_p iri_dom_u k fs = true ->
   exists fs', flatten_fields idequ k fs = Ok fs' /\
     (forall s, In s (steps_of k) -> getf (step_fid s) fs' = fcanon (spec_out idequ s (getf (step_fid s) fs))) /\
@@ -432,4 +433,59 @@ Example C16_example_in_domain_u :
   flatten_fields idequ FKActivity ex16_u
   = Ok [(F_Type, FStr (B "Create"));
         (F_To, FItems (Some [IIri false (hx "68747470733a2f2f6578c3a46d706c652e636f6d2f752f6ac3bc7267656e")]))].
+Proof. split; [vm_compute; reflexivity|]. split; vm_compute; reflexivity. Qed.
+
+(* ---- the wide comparison, the remaining statements (builder b47) ----
+   The three theorems C16_*_domain_u above are the whole-value clauses.  The generic development of
+   Proofs/FlattenDomP.v gives every other *_domain statement for the flatteners run with [idequ] too: the list
+   refinement, Flatten on one item, where the entries of the result come from, "no new IRI", and closure of the
+   domain under flattening.  iri_dom_u holds ids outside the plain grammar of every kind (escapes in path and query,
+   userinfo, IP literals with zone and port, non-ASCII bytes, bytes that are not UTF-8), and the correspondence check
+   runs exactly these instances against the real Flatten* on such ids (harness/c16u.go over the pool of
+   harness/wideids.go), evaluating fields_dom_p iri_dom_u and "twice = once" on every valid-stream case. *)
+Theorem C16_refines_list_domain_u : forall c,
+  forallb iri_dom_u (opt_keys c) = true -> flatten_items idequ c = Ok (flat_list_spec idequ c).
+Proof. exact u_refines_list. Qed.
+Theorem C16_flatten_list_domain_u : forall l,
+  forallb iri_dom_u (keys_of l) = true ->
+  flatten idequ (IItems false (Some l)) = Ok (normalize (flat_list_spec idequ (Some l))).
+Proof. exact u_flatten_list. Qed.
+Theorem C16_idempotent_list_domain_u : forall c c',
+  forallb iri_dom_u (opt_keys c) = true -> flatten_items idequ c = Ok c' ->
+  flatten_items idequ c' = Ok c' /\ forallb iri_dom_u (opt_keys c') = true.
+Proof. exact u_idem_list. Qed.
+Theorem C16_flatten_value_domain_u : forall i,
+  flat_ok i = true -> forallb iri_dom_u (flat_keys i) = true -> flatten idequ i = Ok (flat_multi idequ i).
+Proof. exact u_flatten_value. Qed.
+Theorem C16_idempotent_flatten_domain_u : forall i i',
+  flat_ok i = true -> forallb iri_dom_u (flat_keys i) = true -> flatten idequ i = Ok i' ->
+  flatten idequ i' = Ok i' /\ flat_ok i' = true /\ forallb iri_dom_u (flat_keys i') = true.
+Proof. exact u_idem_flatten. Qed.
+Theorem C16_entries_domain_u : forall k fs fs', fields_dom_p iri_dom_u k fs = true -> flatten_fields idequ k fs = Ok fs' ->
+  forall s, In s (steps_of k) -> forall y, In y (out_entries s (getf (step_fid s) fs')) ->
+  y = INil \/ exists x, In x (in_entries s (getf (step_fid s) fs)) /\ (y = x \/ y = flat_item x).
+Proof. exact u_entries. Qed.
+Theorem C16_no_new_iri_domain_u : forall k fs fs', fields_dom_p iri_dom_u k fs = true -> flatten_fields idequ k fs = Ok fs' ->
+  forall s, In s (steps_of k) -> forall p i, In (IIri p i) (out_entries s (getf (step_fid s) fs')) ->
+  exists x, In x (in_entries s (getf (step_fid s) fs)) /\ (x = IIri p i \/ (p = false /\ i = link_of x)).
+Proof. exact u_no_new_iri. Qed.
+Theorem C16_domain_closed_u : forall k fs fs', fields_dom_p iri_dom_u k fs = true ->
+  flatten_fields idequ k fs = Ok fs' -> fields_dom_p iri_dom_u k fs' = true.
+Proof. exact u_closed. Qed.
+
+(* non-vacuity on what b44 added to the domain: an embedded actor on an IPv6 literal with zone and port, the same
+   addressee as a plain IRI in the other letter case and behind userinfo; a path that is not valid UTF-8 raw and
+   escaped; a look-alike on another port.  The value lies in the wide domain and not in the plain one *)
+Definition ex16_w : list (fid * fval) :=
+  [(F_Type, FStr (B "Create"));
+   (F_Actor, FItem (IObj true KActor [(F_ID, FStr (B "http://u:p@[fe80::1%25eth0]:8080/a%FF")); (F_Type, FStr (B "Person"))]));
+   (F_To, FItems (Some [IObj true KActor [(F_ID, FStr (B "http://[fe80::1%25eth0]:8080/a%FF")); (F_Type, FStr (B "Person"))];
+                        IIri false (hx "485454503a2f2f626f62405b464538303a3a31253235455448305d3a383038302f2e2f41ff");  (* HTTP://bob@[FE80::1%25ETH0]:8080/./A\xff *)
+                        IIri false (B "http://[fe80::1%25eth0]:8081/a%FF")]))].
+Example C16_example_in_domain_w :
+  fields_dom_p iri_dom_u FKActivity ex16_w = true /\ fields_dom FKActivity ex16_w = false /\
+  flatten_fields idequ FKActivity ex16_w
+  = Ok [(F_Type, FStr (B "Create"));
+        (F_Actor, FItem (IIri false (B "http://u:p@[fe80::1%25eth0]:8080/a%FF")));
+        (F_To, FItems (Some [IIri false (B "http://[fe80::1%25eth0]:8080/a%FF"); IIri false (B "http://[fe80::1%25eth0]:8081/a%FF")]))].
 Proof. split; [vm_compute; reflexivity|]. split; vm_compute; reflexivity. Qed.
